@@ -361,6 +361,18 @@ def A_dto(ctx, server):
             ctx.ob(rule, "Db->VarContainer.entry", match(cret, TUP(F(P(2), "0"), C("unwrap", C("parse", F(P(2), "1"))))) is not None, where=c.where(), expected="(k, v.parse().unwrap())", found=flow.show(cret)[:160])
     except LookupError as e:
         ctx.lost(rule, "Db->VarContainer", str(e))
+    # every conversion carries every element, in order: no skip / take / rev / sort / filter-like adaptor anywhere in the From impls of the DTO types
+    from rules import server as S_
+    n_conv = 0
+    for b_ in server.all_bodies:
+        if b_.kind == "closure" or "convert::From" not in b_.path or "::from" not in b_.path:
+            continue
+        if not any(x in b_.path for x in ("BddNodeDb", "VarContainerDb", "SimplifiedAdf")):
+            continue
+        n_conv += 1
+        bad = S_.lossy_calls(server, b_)
+        ctx.ob(rule, "exhaustive:%s" % b_.qual, not bad, where=b_.where(), expected="every element is converted, in order", found=bad[:3])
+    ctx.floor(rule, "DTO conversions", n_conv, 6)
     # Adf <-> SimplifiedAdf
     try:
         b = server.trait_impl_fn("convert::From", "adf::SimplifiedAdf", "adf::Adf")
